@@ -166,6 +166,7 @@ def worker_main(args):
     budget = mod.budget(args.tier)
     soft = budget.get("soft_seconds", 600)
     state = {"inconclusive": False, "skipped": 0}
+    os.environ["VERIF_SALT"] = str(args.seed * 1000 + args.shard)   # read by vlib/hard.py
 
     def handle(case):
         if time.time() - t0 > soft:
